@@ -359,6 +359,14 @@ fn conn_history(seed: u64, idx: usize, thorough: bool, out: &mut impl Write) {
         let comps = if k % 2 == 0 { vec![CVal::new(Ty::A, k as i64), CVal::new(Ty::Name, k as i64)] } else { vec![] };
         c.s.spawn(0, h, true, &comps, None);
     }
+    // one history in ten: a crowded world — a snapshot of several hundred messages reaching the joiner in bursts
+    if idx % 10 == 3 {
+        let k = rng.range(280, 520);
+        for j in 0..k {
+            let h = c.fresh();
+            c.s.spawn(0, h, true, &[CVal::new(Ty::A, j as i64)], None);
+        }
+    }
     // one history in ten: a heavy world — a snapshot of 3 - 8 MiB, around the reliable channel's memory budget of 5 MiB
     // (above it renet refuses the join; below it the snapshot takes dozens of frames)
     if idx % 10 == 7 {
@@ -389,7 +397,7 @@ fn conn_history(seed: u64, idx: usize, thorough: bool, out: &mut impl Write) {
     }
     let steps = if thorough { rng.range(30, 90) } else { rng.range(20, 50) };
     let mut started: Vec<bool> = vec![false; (nclients + 1) as usize];
-    let heavy = idx % 10 == 7;
+    let heavy = idx % 10 == 7 || idx % 10 == 3;
     if heavy {
         // the host alone settles its world first: a client that is already connected when the values are first detected gets
         // them twice (live broadcast and snapshot), which doubles what the channel has to hold
@@ -721,7 +729,7 @@ fn history(family: &str, seed: u64, idx: usize, thorough: bool, out: &mut impl W
                 for (j, h) in hs.iter().enumerate() {
                     c.s.trace.push(json!({"ev":"phase","writer":w,"h":h,"ty":"V","nan":false,"burst":true}));
                     let mut v = CVal::new(Ty::V, 40 + j as i64);
-                    let len = 30_000 + c.rng.below(20_000);
+                    let len = 30_000 + c.rng.below(60_000);
                     v.list = (0..len).map(|i| ((i + j) % 251) as u64).collect();
                     c.s.write(w, *h, &v, &[]);
                 }
@@ -927,6 +935,39 @@ fn history(family: &str, seed: u64, idx: usize, thorough: bool, out: &mut impl W
                 std::thread::sleep(std::time::Duration::from_millis(500));
                 c.lockstep(4);
                 let d = c.drain(80);
+                c.s.trace.push(json!({"ev":"drain","quiescent":d.0,"rounds":d.1}));
+            }
+            // one history in six: a burst — 20 to 40 assets of one class published in one frame, all downloads finishing while
+            // the readers stand still (more than any per-frame budget an implementation might have)
+            if idx % 6 == 1 {
+                let d = c.drain(80);
+                c.s.trace.push(json!({"ev":"drain","quiescent":d.0,"rounds":d.1}));
+                let w = c.any_peer();
+                let kind = *c.rng.pick(&[AKind::Mesh, AKind::Image, AKind::Audio]);
+                let k = c.rng.range(20, 40);
+                for j in 0..k {
+                    let id = uuid::Uuid::from_bytes(c.rng.bytes(16).try_into().unwrap());
+                    c.s.asset_insert(w, kind, Some(id), 3000 + j as u64);
+                }
+                c.s.step(w);
+                c.s.step(w);
+                for p in 0..c.peers() {
+                    if p != w {
+                        c.s.step(p);
+                    }
+                }
+                std::thread::sleep(std::time::Duration::from_millis(500));
+                if w != 0 {
+                    // relayed by the host: the other clients start their downloads one host frame later
+                    c.s.step(0);
+                    for p in 1..c.peers() {
+                        if p != w {
+                            c.s.step(p);
+                        }
+                    }
+                    std::thread::sleep(std::time::Duration::from_millis(500));
+                }
+                let d = c.drain(120);
                 c.s.trace.push(json!({"ev":"drain","quiescent":d.0,"rounds":d.1}));
             }
             // one history in six: the endpoint an announcement points at answers slowly (headers and half of the body, the rest
